@@ -23,6 +23,10 @@ def extra(led, tier, seed):
         "affinity = gemini.compute_affinity", "with this batch's affinity block", "the objective called is the model's GEMINI")))
     led.extend(o for o in predict_glue.obligations() if "KernelRIM._compute_kernel" in o.name or ".score:" in o.name)
     led.extend(F.native_equivalence(seed, tier))
+    # 'precomputed = named' under mini-batches rests on the block contracts of C10: every training batch and every validation block
+    # gets exactly the rows AND columns of the user's matrix that belong to its samples
+    from contracts import batching
+    led.extend(o for o in batching.vc_obligations() if "affinity" in o.name or "within the VC subset" in o.name or "bounded replay" in o.name)
     led.assume("A4", "A5: sklearn.metrics.pairwise_kernels / pairwise_distances(X, metric=name, **params) are the named kernel / metric with those parameters",
                "L7: by the read-set obligations, fit / score depend on the kernel choice only through the value of compute_affinity(X, y); with C12 determinism the fitted "
                "model is a function of that value, so a precomputed matrix equal to the named kernel yields the same model (the dynamic mode of path() recomputes the affinity "
